@@ -35,7 +35,13 @@ def make_oracles(cfg):
             return False
         return h.classify(HandlerContext(list(tokens), cwd=Path(cwd))).action != "allow"
 
-    return {"simple": simple, "astr": astr, "mredir": mredir, "cdres": cdres, "injrisk": injrisk}
+    def rulematch(cwd, remote, tokens):
+        from dippy.core.config import SimpleCommand, match_command
+
+        return match_command(SimpleCommand(words=list(tokens)), cfg, Path(cwd), remote=b(remote)) is not None
+
+    return {"simple": simple, "astr": astr, "mredir": mredir, "cdres": cdres, "injrisk": injrisk,
+            "rulematch": rulematch}
 
 
 def model_analyze(model, cfg, command: str, cwd: str, remote=False, note=None, record=False):
@@ -52,3 +58,31 @@ def model_analyze(model, cfg, command: str, cwd: str, remote=False, note=None, r
         nodes = None
     req = ["analyze_nodes", cwd, remote, lib.opt([lib.tree(n, note) for n in nodes] if nodes is not None else None)]
     return model.call(req, make_oracles(cfg), record=record)
+
+
+def make_ladder_oracles(cfg):
+    """Oracles of the Ladder model (rule lookup, handlers) answered by the real code."""
+    lib.use_repo()
+    from dippy.core import analyzer as an
+    from dippy.core.config import SimpleCommand, match_command
+    from dippy.cli import get_handler, HandlerContext
+
+    base = make_oracles(cfg)
+
+    def b(x):
+        return x == "1"
+
+    def mcmd(cwd, remote, tokens):
+        m = match_command(SimpleCommand(words=list(tokens)), cfg, Path(cwd), remote=b(remote))
+        return lib.opt(m.decision if m else None)
+
+    def handler(cwd, remote, tokens):
+        h = get_handler(tokens[0]) if tokens else None
+        if h is None:
+            return None
+        r = h.classify(HandlerContext(list(tokens), cwd=Path(cwd)))
+        return [[r.action, r.inner_command or "", list(r.redirect_targets or ()), bool(r.remote),
+                 bool(getattr(h, "HANDLES_HELP", False))]]
+
+    base.update({"mcmd": mcmd, "handler": handler})
+    return base
